@@ -27,7 +27,7 @@ REQUIRED = ["contract:Assertion.mvrs_to_data", "contract:Assertion.set_p_values"
             "datum_equal_to_u_seen", "datum_zero_seen", "style_filter_checked", "cards_filtered_out_by_style",
             "test_u_checked", "positive_margin_assertions", "supermajority_u_assorter_not_1",
             "stratum:uniform_pool_nonrepresentable_bound", "u_at_test_time_checked", "stale_u_before_set_p_values",
-            "margin_revised_after_set_margin_from_cvrs", "assorters_evaluated_on_all_cards_before_the_audit"]
+            "margin_revised_after_set_margin_from_cvrs", "assorters_evaluated_on_all_cards_before_the_audit", "samples_with_an_unnumbered_record_probed"]
 ASSUMPTIONS = ["sample_threshold has been set by a draw (n_c >= 1) before mvrs_to_data is called under style",
                "the bound clause is asserted for every margin the simulator produces (also non-positive ones: the data are "
                "still inside [0,u])"]
@@ -87,7 +87,8 @@ def post_mvrs_to_data(rec, result, a, k, old):
             else:
                 lists = lambda cv: cv.has_contest(con.id)
             pos = [i for i in range(len(mvr_sample))
-                   if lists(cvr_sample[i]) and (use_all or cvr_sample[i].sample_num <= con.sample_threshold)]
+                   if lists(cvr_sample[i]) and (use_all or (cvr_sample[i].sample_num is not None   # (no number: not shown to be within)
+                                                            and cvr_sample[i].sample_num <= con.sample_threshold))]
             rec.count("style_filter_checked")
             rec.count("cards_filtered_out_by_style", len(mvr_sample) - len(pos))
         else:
@@ -271,6 +272,29 @@ def run_case(es, rec):
     CALLS.clear()
     with np.errstate(all="ignore"):
         ok, pmax = rec.guard("c06.call:set_p_values", sim.L["Assertion"].set_p_values, sim.contests, m, c)
+    if ok and sim.use_style and rng.random() < 0.15:
+        # a sampled record that carries no sample number (re-read from a file without the field, or made after the numbers
+        # were assigned): it cannot be shown to lie within any contest's threshold, so it must not contribute - refusing
+        # the sample is fine too
+        for cid, con in sim.contests.items():
+            if con.audit_type == sim.L["Audit"].AUDIT_TYPE.POLLING or con.sample_threshold is None:
+                continue
+            cands = [cv for cv in c if cv.has_contest(cid) and cv.sample_num is not None]
+            if not cands:
+                continue
+            cv = max(cands, key=lambda z: z.sample_num)
+            keep, cv.sample_num = cv.sample_num, None
+            rec.count("samples_with_an_unnumbered_record_probed")
+            try:
+                with np.errstate(all="ignore"):
+                    for asn in con.assertions.values():
+                        asn.mvrs_to_data(m, c)      # (the contract on mvrs_to_data decides which cards may contribute)
+                rec.count("sample_with_an_unnumbered_record_accepted")
+            except TypeError:
+                rec.count("sample_with_an_unnumbered_record_refused")
+            finally:
+                cv.sample_num = keep
+            break
     filtered = rec.counters.get("cards_filtered_out_by_style", 0) - before
     discrep = any(str(i) in es["mvrs"] for i in idx)
     rec.case(es, nontrivial=(discrep and (filtered > 0 or not sim.use_style)), sample=brief(es) | {"sizes": sizes})
